@@ -29,7 +29,10 @@ for pid in ["C02", "C11", "C14", "C15", "C03", "C08", "C16", "C17", "C18"]:
         parts.append("complete enumeration: " + ", ".join("%s %d combinations x 192" % (e["leg"].split("/", 2)[2], e["combinations"]) for e in c["enumerated_completely"]))
     hosts = c.get("interpreted_hosts") or c.get("big_endian_host")
     if hosts:
-        parts.append("interpreted hosts: " + "; ".join("%s (%s, %s ops)" % (h["host"].split(" (")[0], h["sections"], h.get("operations", "?")) for h in hosts))
+        def hn(x):
+            m = re.match(r"simulated x86-64 CPU with (\w+)", x)
+            return ("CPU generation " + m.group(1).lower()) if m else x.split(" (")[0]
+        parts.append("interpreted hosts: " + "; ".join("%s (%s, %s ops)" % (hn(h["host"]), h["sections"], h.get("operations", "?")) for h in sorted(hosts, key=lambda h: h["host"])))
     if c.get("miri_thread_layer"):
         w = c["miri_thread_layer"]["workloads"][0]
         parts.append("Miri thread layer: %d interpreter runs over %d of %d workloads, %d on the x86 backend, %d distinct completion orders" % (
